@@ -50,3 +50,21 @@ Lemma Rn_shapes :
   shape 3 3 (mat_of R3_jacobian_self_oplus_other_wrt_self__R3) /\ shape 3 3 (mat_of R3_jacobian_self_ominus_other_wrt_other__R3) /\
   shape 3 3 (mat_of R3_jacobian_boxplus) /\ shape 3 3 (mat_of R3_jacobian_inverse).
 Proof. unfold shape. repeat split; try reflexivity; repeat constructor. Qed.
+
+(* tangent identities (used by the chain-rule proofs of C01) *)
+Lemma R2_oplus_wrt_self_tan : tangent_ok R2_oplus (mat_of R2_jacobian_self_oplus_other_wrt_self__R2) 4 0 2. Proof. tan_ring. Qed.
+Lemma R2_oplus_wrt_other_tan : tangent_ok R2_oplus (mat_of R2_jacobian_self_oplus_other_wrt_other__R2) 4 2 2. Proof. tan_ring. Qed.
+Lemma R2_ominus_wrt_self_tan : tangent_ok R2_ominus (mat_of R2_jacobian_self_ominus_other_wrt_self__R2) 4 0 2. Proof. tan_ring. Qed.
+Lemma R2_ominus_wrt_other_tan : tangent_ok R2_ominus (mat_of R2_jacobian_self_ominus_other_wrt_other__R2) 4 2 2. Proof. tan_ring. Qed.
+Lemma R2_point_wrt_self_tan : tangent_ok R2_oplus (mat_of R2_jacobian_self_oplus_point_wrt_self__R2) 4 0 2. Proof. tan_ring. Qed.
+Lemma R2_point_wrt_point_tan : tangent_ok R2_oplus (mat_of R2_jacobian_self_oplus_point_wrt_point__R2) 4 2 2. Proof. tan_ring. Qed.
+Lemma R2_boxplus_tan : tangent_ok R2_boxplus (mat_of R2_jacobian_boxplus) 4 2 2. Proof. tan_ring. Qed.
+Lemma R2_inverse_tan : tangent_ok R2_inv (mat_of R2_jacobian_inverse) 2 0 2. Proof. tan_ring. Qed.
+Lemma R3_oplus_wrt_self_tan : tangent_ok R3_oplus (mat_of R3_jacobian_self_oplus_other_wrt_self__R3) 6 0 3. Proof. tan_ring. Qed.
+Lemma R3_oplus_wrt_other_tan : tangent_ok R3_oplus (mat_of R3_jacobian_self_oplus_other_wrt_other__R3) 6 3 3. Proof. tan_ring. Qed.
+Lemma R3_ominus_wrt_self_tan : tangent_ok R3_ominus (mat_of R3_jacobian_self_ominus_other_wrt_self__R3) 6 0 3. Proof. tan_ring. Qed.
+Lemma R3_ominus_wrt_other_tan : tangent_ok R3_ominus (mat_of R3_jacobian_self_ominus_other_wrt_other__R3) 6 3 3. Proof. tan_ring. Qed.
+Lemma R3_point_wrt_self_tan : tangent_ok R3_oplus (mat_of R3_jacobian_self_oplus_point_wrt_self__R3) 6 0 3. Proof. tan_ring. Qed.
+Lemma R3_point_wrt_point_tan : tangent_ok R3_oplus (mat_of R3_jacobian_self_oplus_point_wrt_point__R3) 6 3 3. Proof. tan_ring. Qed.
+Lemma R3_boxplus_tan : tangent_ok R3_boxplus (mat_of R3_jacobian_boxplus) 6 3 3. Proof. tan_ring. Qed.
+Lemma R3_inverse_tan : tangent_ok R3_inv (mat_of R3_jacobian_inverse) 3 0 3. Proof. tan_ring. Qed.
